@@ -219,6 +219,11 @@ class GenParam(F.Gen):
         kl, km = ('nlev', 'mode') if same else ('klev', 'kmode')
         # ---- lev2(nl, md, c, s)
         nl, md = ('nlev', 'mode') if rng.random() < 0.5 else ('nl', 'md')
+        if 'cross' in self.f:
+            # crossing names: the size / flag dummies of the intermediate level are spelled like OTHER top-level
+            # parametrised variables (the value must follow the binding, not the spelling), lev2 permutes again
+            kl, km = rng.choice([('mode', 'nlev'), ('mode', 'nlev'), ('n', 'm'), ('m', 'nlev'), ('mode', 'n'), ('n', 'nlev')])
+            nl, md = rng.choice([('nlev', 'mode'), ('mode', 'nlev'), ('m', 'n'), ('n', 'mode'), ('nl', 'md'), ('nlev', 'm')])
         d2 = [decl(nl, 'int', 'in'), decl(md, 'int', 'in'), xdecl('c', 'int', 'inout', [(None, V(nl))]), decl('s', 'int', 'inout'),
               decl('q', 'int'), xdecl('w', 'int', 'local', [(None, V(nl)), (None, N(2))])]
         inner = [assign(el('w', V('q'), N(1)), mod_(add(el('c', V('q')), V(md), V('q')), 13)),
@@ -290,6 +295,8 @@ class GenParam(F.Gen):
             self.forms.update({rng.choice(['lev1', 'lev2']): 'dup', 'size1': 'plain', 'size2': 'plain'})
         if 'entry1' in self.f:
             self.forms.update(lev1='plain', size1='plain')
+        if 'cross' in self.f:
+            self.forms.update(lev1='plain', lev2='plain', size1='plain', size2='plain')
         levs = self.make_lev()
         decls = [decl('nlev', 'int', 'in'), decl('mode', 'int', 'in'), decl('n', 'int', 'in'), decl('m', 'int', 'in'), decl('flag', 'log', 'in'),
                  decl('ia', 'int', 'inout', self.arrays['ia']), decl('ra', 'real', 'inout', self.arrays['ra'])]
@@ -305,7 +312,7 @@ class GenParam(F.Gen):
         if rng.random() < 0.6:
             init.append(do('i', N(1), V('nlev'), [assign(el('wa', V('i')), mod_(add(op('prod', V('i'), N(2)), V('m')), 9))]))
         self.in_kernel = True
-        first = self.call_lev1() if 'entry1' in self.f else []
+        first = self.call_lev1() if 'entry1' in self.f or 'cross' in self.f else []     # an unconditional call
         mark_keep(init[5:])
         body = init + first + self.block(depth, nstmts)
         if not any(s['s'] == 'call' and s['name'] == 'lev1' for s in walk_stmts(body)):
@@ -359,6 +366,15 @@ def gen_param_case(rng, features=(), ninputs=6):
     fixed = {}
     for v in chosen:
         fixed[v] = rng.randint(*g.NLEV) if v == 'nlev' else rng.randint(0, 2) if v == 'mode' else rng.choice([0, 1, 3, 5, 2])
+    if 'cross' in features:
+        # every top-level name that is re-used as a dummy name further down is parametrised, with pairwise distinct values
+        names = prog['meta']['names']
+        chosen = sorted({'nlev', 'mode'} | ({*names['lev1'], *names['lev2']} & {'n', 'm'}))
+        fixed, used = {}, set()
+        for v in chosen:
+            pool = range(g.NLEV[0], g.NLEV[1] + 1) if v == 'nlev' else (0, 1, 2) if v == 'mode' else (0, 1, 2, 3, 5)
+            fixed[v] = rng.choice([x for x in pool if x not in used])
+            used.add(fixed[v])
     if entry == 'lev1':
         kl, km = prog['meta']['names']['lev1']
         dic2p = {{'nlev': kl, 'mode': km}[v]: val for v, val in fixed.items()}
@@ -366,6 +382,8 @@ def gen_param_case(rng, features=(), ninputs=6):
         dic2p = dict(fixed)
     prog['param'] = {'dic2p': dic2p, 'fixed': [[k, v] for k, v in sorted(fixed.items())],
                      'rbv': rng.random() < 0.5, 'callback': rng.random() < 0.5, 'entry': entry}
+    if 'cross' in features and 'prt' in param_tags(prog):
+        prog['param']['rbv'] = False     # keep the stratum clear of the replace_by_value / PRINT finding
     return prog, g.inputs(prog, ninputs, fixed)
 
 
@@ -449,6 +467,10 @@ def param_tags(prog):
         tags.add('mixed')
     if p['rbv']:
         tags.add('rbv')
+    # cross = below the entry point a parametrised dummy is spelled like a top-level key that has ANOTHER value
+    if any(nm in p['dic2p'] and p['dic2p'][nm] != val for uname, pu in par.items() if uname != 'kernel' and p['entry'] != 'lev1'
+           for nm, val in pu.items()):
+        tags.add('cross')
     for uname, pu in par.items():       # replace_by_value and a parametrised variable is an item of a PRINT statement
         for s in walk_stmts(units[uname]['body'] if p['rbv'] else []):
             if s['s'] == 'print' and any(nm in pu for it in s['items'] for nm in F_names(it)):
@@ -745,8 +767,21 @@ class GenSig(F.Gen):
         names = {h['unit']['name'] for h in self.helpers[2:]}
         if not any(s['s'] == 'call' and s['name'] in names for s in walk_stmts(body)):
             body += self.rng.choice(self.helpers[2:])['mkcall'](self)
+        tail = []
+        if 'sec3' in self.f:
+            # 3-d locals with pairwise distinct extents wd(2,3,4), we(2,nv,4); one unconditional call that passes a
+            # section with a scalar subscript in a leading / middle position; position-sensitive observation
+            kern['decls'] += [decl('wd', 'int', 'local', self.SEC3['wd']),
+                              xdecl('we', 'int', 'local', [(None, N(2)), (None, V('nv')), (None, N(4))])]
+            init += [do('l', N(1), N(4), [do('j', N(1), N(3), [do('i', N(1), N(2), [
+                        assign(el('wd', V('i'), V('j'), V('l')), mod_(add(V('i'), op('prod', V('j'), N(3)), op('prod', V('l'), N(7)), V('m')), 11))])])]),
+                     do('l', N(1), N(4), [do('j', N(1), V('nv'), [do('i', N(1), N(2), [
+                        assign(el('we', V('i'), V('j'), V('l')), mod_(add(op('prod', V('i'), N(2)), V('j'), op('prod', V('l'), N(5)), V('n')), 7))])])])]
+            body += self.sec3_call(forced=True)
+            tail.append(assign(V('t1'), mod_(add(V('t1'), call('sum', V('wd')), op('prod', el('wd', N(2), N(1), N(1)), N(3)), op('prod', el('wd', N(1), N(3), N(4)), N(5)),
+                                                 op('prod', el('wd', N(2), N(2), N(3)), N(7)), call('sum', V('we')), op('prod', el('we', N(1), N(2), N(4)), N(3))), 103)))
         # observe the locals
-        tail = [assign(V('t2'), mod_(add(call('sum', V('wc')), call('sum', V('wv'))), 101)), assign(V('k'), mod_(add(V('k'), V('t2'), V('t1')), 97))]
+        tail += [assign(V('t2'), mod_(add(call('sum', V('wc')), call('sum', V('wv'))), 101)), assign(V('k'), mod_(add(V('k'), V('t2'), V('t1')), 97))]
         kern['body'] = body[:5] + mark_keep(init) + body[5:] + mark_keep(tail)
         prog['meta'] = {'family': self.family, 'opts': self.opts}
         prune_unreachable(prog)
@@ -762,6 +797,33 @@ class GenSig(F.Gen):
         for inp in out:
             inp['nv'] = F.val_int(self.rng.randint(*self.NV))
         return out
+
+    # ---- stratum sec3 of the shape family: sections of 3-d arrays with scalar subscripts at every position
+    SEC3 = {'wd': [(1, 2), (1, 3), (1, 4)], 'we': [(1, 2), (1, 2), (1, 4)]}     # we: second extent nv >= 2
+
+    def sec3_call(self, want=None, forced=False):
+        """sh1(a(:)) gets two scalar subscripts, sh2(b2(:,:)) / sh4(b3(:,:)) one; `forced`: a scalar subscript in a
+        non-trailing position (otherwise non-trailing with probability 0.75)."""
+        rng = self.rng
+        want = want or rng.choice(['sh1', 'sh2', 'sh4', 'sh4'])
+        arr = rng.choice(['wd', 'wd', 'we'])
+        nonvar = forced or rng.random() < 0.75
+        if want == 'sh1':
+            keep = rng.choice([1, 2]) if nonvar else 0              # the range; at position 1 or 2 it leaves a leading scalar
+            scal = [d for d in range(3) if d != keep]
+        else:
+            sc = rng.choice([0, 1]) if nonvar else 2                # position of the single scalar subscript
+            scal = [sc]
+        subs = []
+        for d, (lo, hi) in enumerate(self.SEC3[arr]):
+            if d not in scal:
+                subs.append(rng_())
+            elif rng.random() < 0.25:
+                subs.append(add(N(lo), mod_(call('abs', V('n')), hi - lo + 1)))
+            else:
+                subs.append(N(rng.randint(lo, hi)))
+        out = V(rng.choice(['t1', 'k'])) if forced else self.out_scalar()
+        return [callst(want, el(arr, *subs), out)]
 
     # ---- family: sequence association
     SEQ_ARRAYS = {'ia': [(0, 4)], 'ib': [(1, 3), (-1, 1)], 'wc': [(2, 7)]}
@@ -887,6 +949,17 @@ class GenSig(F.Gen):
                                       op('prod', call('ubound', V('b2'), N(2)), N(11))), 89))]
         sh2 = unit('sh2', ['b2', 's'], d2, b2)
         self.extra_units = units
+        if 'sec3' in self.f:
+            # sh4(b3, r): rank-2 inout dummy: whole-array operation, loop to the extent of the second dimension
+            d4 = [xdecl('b3', 'int', 'inout', [(None, ASSUMED), (None, ASSUMED)]), decl('r', 'int', 'out'), decl('q', 'int')]
+            b4 = [assign(V('r'), add(op('prod', call('size', V('b3'), N(1)), N(10)), call('size', V('b3'), N(2)))),
+                  assign(V('b3'), add(V('b3'), N(1))),
+                  do('q', N(1), call('size', V('b3'), N(2)), [
+                      assign(el('b3', N(1), V('q')), mod_(add(el('b3', N(1), V('q')), V('q')), 13)),
+                      assign(V('r'), mod_(add(V('r'), op('prod', el('b3', call('size', V('b3'), N(1)), V('q')), V('q'))), 97))])]
+            sh4 = unit('sh4', ['b3', 'r'], d4, b4)
+            return [{'unit': sh1, 'mkcall': lambda g: g.sec3_call(want='sh1')}, {'unit': sh2, 'mkcall': lambda g: g.sec3_call(want='sh2')},
+                    {'unit': sh4, 'mkcall': lambda g: g.sec3_call(want='sh4')}]
 
         def call1(g):
             r = g.rng.random()
@@ -963,6 +1036,11 @@ def sig_tags(prog):
                         tags.add('vardim')
                 else:
                     nr = sum(1 for c in a['c'] if c['k'] == 'range')
+                    if len(a['c']) == 3:      # section of a 3-d array: are all scalar subscripts trailing?
+                        sc = [i for i, c in enumerate(a['c']) if c['k'] != 'range']
+                        rg = [i for i, c in enumerate(a['c']) if c['k'] == 'range']
+                        tags.add('sec3t' if sc and rg and min(sc) > max(rg) else 'sec3')
+                        continue
                     decl_ = next((d for d in u['decls'] if d['name'] == a['name']), None)
                     lbs = [lo for (lo, _), c in zip(decl_['dims'], a['c']) if c['k'] == 'range'] if decl_ is not None and not decl_.get('xdims') else [1]
                     tags.add('sec' if nr == len(a['c']) else 'secrank' if all(lo == 1 for lo in lbs) else 'secranklb')
